@@ -20,6 +20,7 @@ func init() {
 	libModels = map[string]modelFn{
 		"strings.Cut":        modelCut,
 		"bytes.Equal":        modelBytesEqual,
+		"github.com/prometheus/common/model.EscapeName": modelEscapeName,
 		"strings.TrimLeft":   modelTrimLeft,
 		"strings.TrimRight":  modelTrimRight,
 		"strings.TrimSpace":  modelTrimSpace,
@@ -68,9 +69,9 @@ func init() {
 		"context.WithCancel":             modelHavocPure,
 		"context.WithTimeout":            modelHavocPure,
 		"context.WithValue":              modelNonNilIface,
-		"os.Getenv":                      modelHavocPure,
+		"os.Getenv":                      modelGetenv,
 		"os.LookupEnv":                   modelHavocPure,
-		"strconv.Atoi":                   modelHavocPure,
+		"strconv.Atoi":                   modelAtoi,
 		"strconv.ParseInt":               modelHavocPure,
 		"strconv.ParseFloat":             modelHavocPure,
 		"strconv.ParseBool":              modelHavocPure,
@@ -640,4 +641,43 @@ func modelBytesEqual(f *Frame, st *State, cc *ssa.CallCommon, args []Val, rt typ
 	q := e.fresh("q.i")
 	return Val{T: rt, S: e.define("beq", "Bool", fmt.Sprintf("(and (= (s.len %s) (s.len %s)) (forall ((%s Int)) (=> (and (<= 0 %s) (< %s (s.len %s))) (= (select (select %s (s.arr %s)) (+ (s.off %s) %s)) (select (select %s (s.arr %s)) (+ (s.off %s) %s))))))",
 		a, b, q, q, q, a, h, a, a, q, h, b, b, q))}
+}
+
+// os.Getenv: "retrieves the value of the environment variable named by the key": a deterministic function of the key
+// for the duration of one verified call (the environment is assumed not to change meanwhile).
+func (e *Engine) getenvTerm(key string) string {
+	e.sc.Decl("fun:getenv", "(declare-fun lib.os.Getenv (Str) Str)")
+	e.assumed["the process environment does not change during one call (os.Getenv is a function of the key)"] = true
+	return fmt.Sprintf("(lib.os.Getenv %s)", key)
+}
+
+func modelGetenv(f *Frame, st *State, cc *ssa.CallCommon, args []Val, rt types.Type, pos token.Pos) Val {
+	return Val{T: rt, S: f.e.getenvTerm(args[0].S)}
+}
+
+// strconv.Atoi: a deterministic partial function of the string: (value, nil) or (0, error).
+func (e *Engine) atoiTerms(s string) (val, ok string) {
+	e.sc.Decl("fun:atoi", "(declare-fun lib.strconv.AtoiVal (Str) Int)\n(declare-fun lib.strconv.AtoiOK (Str) Bool)\n(assert (forall ((s Str)) (! (and (<= (- 9223372036854775808) (lib.strconv.AtoiVal s)) (<= (lib.strconv.AtoiVal s) 9223372036854775807)) :pattern ((lib.strconv.AtoiVal s)))))")
+	return fmt.Sprintf("(lib.strconv.AtoiVal %s)", s), fmt.Sprintf("(lib.strconv.AtoiOK %s)", s)
+}
+
+func modelAtoi(f *Frame, st *State, cc *ssa.CallCommon, args []Val, rt types.Type, pos token.Pos) Val {
+	e := f.e
+	v, ok := e.atoiTerms(args[0].S)
+	tup := rt.(*types.Tuple)
+	errv := e.havocVal(tup.At(1).Type(), "atoierr", st)
+	e.assume("true", fmt.Sprintf("(= (= %s iface.nil) %s)", errv.S, ok))
+	val := v
+	if e.mode == "bv" {
+		val = "((_ int2bv 64) " + v + ")"
+	}
+	return Val{T: rt, Tuple: []Val{{T: tup.At(0).Type(), S: e.define("atoi", e.sortOf(tup.At(0).Type()), sIte(ok, val, e.zero(tup.At(0).Type())))}, errv}}
+}
+
+// model.EscapeName (prometheus/common, external): assumed to return a non-empty name for a non-empty input.
+func modelEscapeName(f *Frame, st *State, cc *ssa.CallCommon, args []Val, rt types.Type, pos token.Pos) Val {
+	e := f.e
+	v := e.havocVal(rt, "escaped", st)
+	e.assume("true", fmt.Sprintf("(=> (>= (slen %s) 1) (>= (slen %s) 1))", args[0].S, v.S))
+	return v
 }
